@@ -74,7 +74,7 @@ Names == {Nm("/a"), Nm("/a/b"), Nm("/a/b/c"), Nm("/ab"), Nm("/ab/c")}
 StrVec == {[f |-> "fn:string:concat", a |-> q] : q \in {<<>>} \cup {<<x>> : x \in Strs \cup {Num(-7), Nm("/a/b")}}
                                                        \cup {<<x, y>> : x \in {Str("a"), Str(""), Num(1), Nm("/a")}, y \in {Str("b"), Str(""), Num(-2), Nm("/x/y")}}
                                                        \cup {<<Str("a"), Num(1), Nm("/x/y"), Str("z")>>, <<Str("a"), List(<<>>)>>}}
-          \cup {[f |-> "fn:string:replace", a |-> <<x, o, n, Num(k)>>] : x \in {Str("aaa"), Str("abab"), Str("abc"), Str("")}, o \in {Str("a"), Str("ab"), Str("x")},
+          \cup {[f |-> "fn:string:replace", a |-> <<x, o, n, Num(k)>>] : x \in {Str("aaa"), Str("abab"), Str("abc"), Str("")}, o \in {Str("a"), Str("ab"), Str("x"), Str("")},
                                                                        n \in {Str(""), Str("b"), Str("xyz")}, k \in {-1, 0, 1, 2, 5}}
           \cup {[f |-> g, a |-> <<x>>] : g \in {"fn:name:to_string", "fn:name:root", "fn:name:tip", "fn:name:list"}, x \in Names \cup {Str("/a")}}
           \cup {[f |-> "fn:number:to_string", a |-> <<x>>] : x \in Nums \cup {Str("1")}}
@@ -85,7 +85,23 @@ StrVec == {[f |-> "fn:string:concat", a |-> q] : q \in {<<>>} \cup {<<x>> : x \i
           \* the same orders on the wide timeline: index i stands for i * 2^62 ns (-2 is the earliest instant there is, differences overflow int64)
           \cup {[f |-> g, a |-> <<<<"tw", i>>, <<"tw", j>>>>] : g \in {":time:lt", ":time:le", ":time:gt", ":time:ge"}, i \in -2..1, j \in -2..1}
           \cup {[f |-> g, a |-> <<<<"dw", i>>, <<"dw", j>>>>] : g \in {":duration:lt", ":duration:le", ":duration:gt", ":duration:ge"}, i \in -2..1, j \in -2..1}
-Cases == CASE Mode = "str" -> StrVec [] Mode = "match" -> Match [] Mode = "arith" -> Arith [] Mode = "struct" -> Struct [] Mode = "cmp" -> Cmp [] Mode = "red" -> Red [] Mode = "ring" -> RingVec
+\* instants, durations, intervals: arithmetic, conversions, reducers, Allen's relations on all pairs of intervals over 0..3
+TmS == {Tm(i) : i \in {-2, 0, 1, 5}}
+DuS == {Du(i) : i \in {-3, 0, 2, 90}}
+IvT == {Pair(Tm(s), Tm(e)) : s \in 0..3, e \in 0..3}   \* (s > e included: not an interval, judged only by the functions)
+IvN == {Pair(Num(s), Num(e)) : s \in 0..3, e \in 0..3}
+TimeVec == {[f |-> "fn:time:add", a |-> <<x, y>>] : x \in TmS \cup {Num(1)}, y \in DuS \cup {Num(1)}}
+           \cup {[f |-> "fn:time:sub", a |-> <<x, y>>] : x \in TmS \cup {Du(1)}, y \in TmS \cup {Num(1)}}
+           \cup {[f |-> "fn:duration:add", a |-> <<x, y>>] : x \in DuS \cup {Tm(1)}, y \in DuS \cup {Num(1)}}
+           \cup {[f |-> "fn:duration:mult", a |-> <<x, y>>] : x \in DuS \cup {Num(2)}, y \in {Num(-2), Num(0), Num(3), Du(2)}}
+           \cup {[f |-> g, a |-> <<x>>] : g \in {"fn:duration:nanos", "fn:duration:from_nanos", "fn:time:to_unix_nanos", "fn:time:from_unix_nanos"},
+                                            x \in TmS \cup DuS \cup {Num(-7), Num(0), Num(65792), Str("1")}}
+           \cup {[f |-> g, a |-> <<x>>] : g \in {"fn:interval:start", "fn:interval:end", "fn:interval:duration"}, x \in IvT \cup {Pair(Num(1), Num(2)), Tm(1), List(<<Tm(0), Tm(1)>>)}}
+           \cup {[f |-> g, a |-> <<x, y>>] : g \in IntervalPreds, x \in {v \in IvT : v[2][2] <= v[3][2]}, y \in {v \in IvT : v[2][2] <= v[3][2]}}
+           \cup {[f |-> g, a |-> <<x, y>>] : g \in IntervalPreds, x \in {v \in IvN : v[2][2] <= v[3][2]}, y \in {v \in IvN : v[2][2] <= v[3][2]}}
+           \cup {[f |-> r, a |-> b] : r \in {"fn:time:max", "fn:time:min"}, b \in {<<Tm(1)>>, <<Tm(1), Tm(-2), Tm(5)>>, <<Tm(5), Tm(1), Tm(-2)>>, <<Tm(0), Tm(0)>>}}
+           \cup {[f |-> r, a |-> b] : r \in {"fn:duration:max", "fn:duration:min", "fn:duration:sum"}, b \in {<<Du(2)>>, <<Du(2), Du(-3), Du(90)>>, <<Du(90), Du(2), Du(-3)>>, <<Du(0), Du(0)>>}}
+Cases == CASE Mode = "time" -> TimeVec [] Mode = "str" -> StrVec [] Mode = "match" -> Match [] Mode = "arith" -> Arith [] Mode = "struct" -> Struct [] Mode = "cmp" -> Cmp [] Mode = "red" -> Red [] Mode = "ring" -> RingVec
 Init == c = <<>>
 Next == c = <<>> /\ c' \in Cases
 Emit == c # <<>> => PrintT(<<"CASE", ToJson(c)>>)
@@ -97,6 +113,23 @@ T07a == \A x \in Ints, y \in Ints \ {0} :
           /\ Abs(TMod(x, y)) < Abs(y)
           /\ (TMod(x, y) = 0 \/ Sgn(TMod(x, y)) = Sgn(x))
           /\ ApplyFn("fn:div", <<Num(x), Num(0)>>) = ERR
+\* T07t: instants and durations: adding then subtracting returns the duration, the conversions are mutually inverse;
+\* the interval relations: converses, equals = starts + finishes = during both ways, disjoint intervals do not overlap,
+\* meeting intervals share their common end point, and the reducers do not depend on the order of the bag
+Ivs == {<<s, e>> : s \in 0..3, e \in 0..3}
+T07t == /\ \A t \in TmS, d \in DuS : ApplyFn("fn:time:sub", <<ApplyFn("fn:time:add", <<t, d>>), t>>) = d
+        /\ \A d \in DuS : ApplyFn("fn:duration:from_nanos", <<ApplyFn("fn:duration:nanos", <<d>>)>>) = d
+        /\ \A t \in TmS : ApplyFn("fn:time:from_unix_nanos", <<ApplyFn("fn:time:to_unix_nanos", <<t>>)>>) = t
+        /\ \A x \in Ivs, y \in Ivs : (x[1] <= x[2] /\ y[1] <= y[2]) =>
+              /\ IntervalHolds(":interval:after", x, y) = IntervalHolds(":interval:before", y, x)
+              /\ IntervalHolds(":interval:contains", x, y) = IntervalHolds(":interval:during", y, x)
+              /\ IntervalHolds(":interval:equals", x, y) = (IntervalHolds(":interval:starts", x, y) /\ IntervalHolds(":interval:finishes", x, y))
+              /\ IntervalHolds(":interval:equals", x, y) = (IntervalHolds(":interval:during", x, y) /\ IntervalHolds(":interval:during", y, x))
+              /\ (IntervalHolds(":interval:before", x, y) \/ IntervalHolds(":interval:after", x, y)) = ~IntervalHolds(":interval:overlaps", x, y)
+              /\ IntervalHolds(":interval:meets", x, y) => IntervalHolds(":interval:overlaps", x, y)
+              /\ IntervalHolds(":interval:during", x, y) => IntervalHolds(":interval:overlaps", x, y)
+        /\ Reduce("fn:duration:sum", <<Du(2), Du(-3), Du(90)>>) = Reduce("fn:duration:sum", <<Du(90), Du(2), Du(-3)>>)
+        /\ Reduce("fn:time:max", <<Tm(1), Tm(-2), Tm(5)>>) = Reduce("fn:time:max", <<Tm(5), Tm(1), Tm(-2)>>)
 T07b == /\ \A x \in Vals, y \in Vals :
              BuiltinSols(":match_pair", <<ApplyFn("fn:pair", <<x, y>>), Var("A"), Var("B")>>, NoSub) = {[A |-> x, B |-> y]}
         /\ \A x \in Vals, l \in Lists :
@@ -121,5 +154,5 @@ T07r == /\ \A x \in WVals, y \in WVals : DivModLaw(x, y) /\ Add(x, Neg(x)) = Sma
         /\ \A x \in WVals, y \in WVals, z \in WVals : (Less(x, y) /\ Less(y, z)) => Less(x, z)
         \* remainder: smaller in magnitude than the divisor is implied for the small zone by T07a; its sign follows the dividend
         /\ \A x \in WVals, y \in WVals : (Mod(x, y) # Undef /\ ~IsZero(Mod(x, y))) => (IsNeg(Mod(x, y)) = IsNeg(x))
-T07 == c = <<>> => (IF Mode = "ring" THEN T07r ELSE (T07a /\ T07b /\ T07c /\ T07d /\ T07e))
+T07 == c = <<>> => (IF Mode = "ring" THEN T07r ELSE (T07a /\ T07b /\ T07c /\ T07d /\ T07e /\ T07t))
 =============================================================================
